@@ -619,6 +619,9 @@ impl Generator {
             if let Surgery::InstallCff2Subrs { glyphs, .. } = sgy {
                 focus_gids.extend(glyphs.iter().copied().filter(|g| *g < info.num_glyphs));
             }
+            if let Surgery::InstallVarComposite { glyph, .. } = sgy {
+                focus_gids.push(*glyph);
+            }
         }
         if !focus_gids.is_empty() {
             for op in trace.ops.iter_mut() {
@@ -1646,6 +1649,26 @@ fn gen_install(rng: &mut Rng, info: &FontInfo, prop: &str) -> Option<(FontInfo, 
             }
             chars.sort_unstable();
             focus = Some(chars);
+        }
+    }
+    if info.axes > 0 && info.has("glyf") && info.has("gvar") && info.num_glyphs >= 4 && rng.pct(p_cvar) {
+        // glyph ids are drawn blindly; the surgery refuses unusable ones and the run is skipped
+        let n = u64::from(info.num_glyphs);
+        let pick = |rng: &mut Rng| 1 + rng.below(n.min(300) - 1) as u16;
+        for _ in 0..6 {
+            let s = Surgery::InstallVarComposite {
+                glyph: pick(rng),
+                a: pick(rng),
+                b: pick(rng),
+                dx: *rng.pick(&[60i16, -60, 0, 127, 300, -300, 1]),
+                dy: *rng.pick(&[0i16, 3, -3, 120, -200]),
+                variant: rng.below(1 << 16),
+            };
+            let mut probe = info.disk.clone();
+            if surgery::apply(&mut probe, &s).is_ok() {
+                surgeries.push(s);
+                break;
+            }
         }
     }
     if info.axes > 0 && info.has("glyf") && !info.has("cvar") && rng.pct(p_cvar) {
